@@ -353,9 +353,9 @@ def cartFail (g : Geom) (e : Exp) (m : Got) : List Fail :=
   | none => []
 
 /-- names are outside the comparison where the container cannot attach them: RIFF labels go by cue point id, which must be
-    unique; an AIFF marker name is a pascal string of at most 253 bytes -/
+    unique; an AIFF marker name is a pascal string of at most 255 bytes (253 before the repair of KF-C12-AIFF-CUE-NAME-254) -/
 def cueNamesJudged (c : Cont) (cs : List Cue) : Bool :=
-  if c == .aiff then cs.all fun q => q.name.length ≤ 253 else (cs.map (·.indx)).eraseDups.length == cs.length
+  if c == .aiff then cs.all fun q => q.name.length ≤ 255 else (cs.map (·.indx)).eraseDups.length == cs.length
 
 def cuesFail (g : Geom) (e : Exp) (m : Got) : List Fail :=
   match e.cues with
